@@ -50,6 +50,8 @@ PARAM_POOL = [
     ("X-Trace", "header", {"type": "integer"}),
     ("sid", "cookie", {"type": "string"}),
     ("limit", "query", {"type": "integer", "maximum": 50}),
+    # property names that YAML 1.1 reads as booleans / numbers / null when unquoted
+    ("flt", "query", {"type": "object", "properties": {"on": {"type": "integer"}, "1.0": {"type": "integer"}, "null": {"type": "string"}, "no": {"type": "boolean"}}}),
 ]
 HOSTILE_KEYS = ["null", "~", "1.0", "2.50", ".5", "1e3", "1.5e3", ".inf", ".nan", "0x1F", "0o17", "017", "1_000", "2020-01-01", "2021-03-04T05:06:07Z", "True", "NO", "y", "n", "12:30:15", "+1", "-0"]
 YAML_TOKENS = ["200", "404", "on", "off", "yes", "no", "2020-01-01", "2021-03-04T05:06:07Z", "1e3", "null", "true", "0o17"]
@@ -478,13 +480,19 @@ def to_hostile_yaml(doc):
 
 
 def write_multifile(doc, scratch):
-    """Split components into a second file and the first path item into a third one, with relative references."""
+    """Split components into a second file and the first path item into a third one, with relative references.
+    The referenced files are JSON or hand-style YAML (by a hash of the document, so both occur)."""
     os.makedirs(os.path.join(scratch, "shared"), exist_ok=True)
+    as_yaml = len(json.dumps(doc)) % 2 == 0
+    ext = "yaml" if as_yaml else "json"
+
+    def dump(obj, path):
+        with open(path, "w") as fd:
+            fd.write(to_hostile_yaml(obj) if as_yaml else json.dumps(obj))
+
     doc = copy.deepcopy(doc)
     three = "openapi" in doc
     params = doc["components"].pop("parameters") if three else doc.pop("parameters")
-    with open(os.path.join(scratch, "shared", "params.json"), "w") as fd:
-        json.dump(params, fd)
     prefix = "#/components/parameters/" if three else "#/parameters/"
 
     def rewrite(node, rel):
@@ -502,7 +510,7 @@ def write_multifile(doc, scratch):
         # the referenced path item lives in another directory; its references are relative to its own file, and a
         # decoy with the same relative name but different definitions sits next to it
         os.makedirs(os.path.join(scratch, "items", "shared"), exist_ok=True)
-        rewrite(moved, "../shared/params.json")
+        rewrite(moved, f"../shared/params.{ext}")
 
         def reroot(node):
             if isinstance(node, dict):
@@ -515,25 +523,22 @@ def write_multifile(doc, scratch):
                     reroot(v)
 
         reroot(moved)
-        with open(os.path.join(scratch, "items", "moved.json"), "w") as fd:
-            json.dump({"Moved": moved}, fd)
+        dump({"Moved": moved}, os.path.join(scratch, "items", f"moved.{ext}"))
         decoy = copy.deepcopy(params)
         for entry in decoy.values():
             if "$ref" in entry:
-                entry["$ref"] = "params.json#/" + entry["$ref"][len(prefix):] if entry["$ref"].startswith(prefix) else entry["$ref"]
+                entry["$ref"] = f"params.{ext}#/" + entry["$ref"][len(prefix):] if entry["$ref"].startswith(prefix) else entry["$ref"]
             elif "schema" in entry:
                 entry["schema"] = {"type": "boolean", "description": "decoy"}
                 entry["required"] = True
-        with open(os.path.join(scratch, "items", "shared", "params.json"), "w") as fd:
-            json.dump(decoy, fd)
+        dump(decoy, os.path.join(scratch, "items", "shared", f"params.{ext}"))
         for template, item in doc["paths"].items():
             if item == {"$ref": "#/components/x-items/Moved"}:
-                doc["paths"][template] = {"$ref": "items/moved.json#/Moved"}
-    rewrite(doc["paths"], "shared/params.json")
-    rewrite(doc.get("components", {}).get("x-items", {}), "shared/params.json")
-    rewrite(params, "params.json")
-    with open(os.path.join(scratch, "shared", "params.json"), "w") as fd:
-        json.dump(params, fd)
+                doc["paths"][template] = {"$ref": f"items/moved.{ext}#/Moved"}
+    rewrite(doc["paths"], f"shared/params.{ext}")
+    rewrite(doc.get("components", {}).get("x-items", {}), f"shared/params.{ext}")
+    rewrite(params, f"params.{ext}")
+    dump(params, os.path.join(scratch, "shared", f"params.{ext}"))
     path = os.path.join(scratch, "root.json")
     with open(path, "w") as fd:
         json.dump(doc, fd)
